@@ -106,6 +106,24 @@ def main():
                                                               f"the same expression computed afterwards reports {x['arith_dim']}", {"spec": d["spec"], "how": how, "document": d.get(how if how != "qjson" else "qjson")})
         for bu in rr.get("inconsistent_units", []):
             c.violation("poisoned:" + json.dumps(bu["f"]), "after deserialization a registered unit reports a dimension that is not the product of its factors' dimensions", {"unit": bu, "how": how})
+    # the second sentence on expressions that go through quantities and through the parser: evaluated in a fresh process, and in a
+    # process that first did ordinary things with the same units (augmented assignment on public results, the compact spellings of
+    # the same texts, every rendering)
+    probes = []
+    for i in range(12 if c.tier == "quick" else 120):
+        k = c.rng.choice([1, 2, 2])
+        spec = [[c.rng.choice([None, "kilo", "milli", "mega"]), c.rng.choice(dn), c.rng.choice([1, 2, -1])] for _ in range(k)]
+        probes += [["quantify", spec], ["unprefixed", spec], ["expr", spec]]
+    for text in ("m s", "m N", "h a", "m in.", "k g", "m m", "d a", "c d", "P a", "m Pa", "G y", "m s⁻¹", "kg m s⁻²", "m K", "n mi.", "f t", "T R"):
+        probes += [["parse", text], ["qparse", text]]
+    fresh = impl("exprhist_worker.py", {"probes": probes, "disturb": False})["results"]
+    after = impl("exprhist_worker.py", {"probes": probes, "disturb": True})["results"]
+    for p_, a, b in zip(probes, fresh, after):
+        c.count(["expression-history", p_], nontrivial=True)
+        if "err" in a and "err" in b: continue
+        if ("err" in a) != ("err" in b) or a["dim"] != b["dim"] or not a.get("consistent", True) or not b.get("consistent", True):
+            c.violation("history-dependent-expression", f"{p_} reports {a.get('dim', a.get('err'))} in a fresh process and {b.get('dim', b.get('err'))} after ordinary operations on the same units",
+                        {"probe": p_, "fresh": a, "after": b, "how": "harness/impl/exprhist_worker.py disturb(): in-place arithmetic on quantify()/unprefixed() results, compact spellings parsed first, every rendering"})
     env0 = exp["env"]
     shard = 60
     files = {}
